@@ -3,7 +3,7 @@ import os
 import random
 
 from .. import cases, tlc
-from ..drivers import ingest
+from ..drivers import ingest, ingest_layouts
 
 CFG_T = """SPECIFICATION TSpec
 CONSTANTS
@@ -31,7 +31,13 @@ def run(ctx):
                 "(Data.from_dataframe, Dataset, to_pandas, re-ingestion); TLC compares the recorded canonical form, exception "
                 "class, tensor padding / mask / counters and the untouched input with Canon(table) (IngestTrace.tla), and checks "
                 "the records cover the enumerated space. Larger tables are sampled. Distinct = distinct (table, id typing, text).")
-    ctx.assumptions = ["visit layout (ID, TIME, features); event / joint layouts are exercised by C12-C13 drivers"]
+    ctx.rule += (" Event, joint and covariate layouts: TLC checks PermutationInvariant, OnePerIndividual and AcceptedIsConsistent of "
+                 "IngestLayouts.tla on every table of <= 3 rows and on the family 'three rows of one individual in any age order + one "
+                 "row of another'; the enumerated tables (<= 2 rows, 3 for event / covariate in the thorough tier, the family, sampled "
+                 "3-row joint tables) are ingested for real and TLC compares verdict, order, sorted visits with aligned values, event, "
+                 "covariate, tensor rows, untouched input and the re-ingested round trip with Canon(table) (IngestLayoutsTrace.tla).")
+    ctx.assumptions = ["the event-only layout lists individuals sorted by identifier (no visits: 'order of first appearance' is stated for tables of visits)",
+                       "as built: a joint / event table where every event is censored, and a covariate taking a single value, are refused"]
     tmp = os.path.join(ctx.tmp, "ing")
     os.makedirs(tmp, exist_ok=True)
     for name in ("MC_Ingest1.cfg", "MC_Ingest2.cfg"):
@@ -86,6 +92,7 @@ def run(ctx):
                           replay=reordered[0])
         ctx.sample(next(r for r in recs if r["status"] == "ok" and len(r["rows"]) >= 2))
         ctx.sample(next(r for r in recs if r["status"] != "ok" and len(r["rows"]) >= 2))
+    run_layouts(ctx, tmp, rnd)
     # binding self-test
     good = next(r for r in recs if r["status"] == "ok" and len(r["form"]["order"]) == 2)
     bad = dict(good)
@@ -97,6 +104,66 @@ def run(ctx):
         raise tlc.MachineryError("binding self-test failed: swapped individuals accepted")
     ctx.log("self-test: record with swapped individual order rejected (as required)")
     ctx.exhaustive = True
+
+
+LAYOUT_CFGS = {"joint": ("MC_IngestLayouts_joint.cfg", "MC_IngestLayouts_joint_31.cfg"),
+               "event": ("MC_IngestLayouts_event.cfg",),
+               "covariate": ("MC_IngestLayouts_covariate.cfg", "MC_IngestLayouts_covariate_31.cfg")}
+
+
+def run_layouts(ctx, tmp, rnd):
+    """Event / joint / covariate layouts (IngestLayouts.tla): design check, enumeration, execution, conformance."""
+    q = ctx.quick
+    spec_dir = tlc.SPECS
+    for layout, cfgs in LAYOUT_CFGS.items():
+        for cfg in cfgs:
+            text = open(os.path.join(spec_dir, cfg)).read()
+            family31 = cfg.endswith("_31.cfg")
+            # the design is checked on the full configuration; the code runs every table of the enumeration configuration
+            res = tlc.run("IngestLayouts", cfg, workers=16, timeout=3000)
+            tlc.require_ok(res, cfg)
+            ctx.add_tlc(f"IngestLayouts design {cfg}", res)
+            if res.violated:
+                ctx.violation({"check": "design", "invariant": res.violated[0]}, f"IngestLayouts.tla violates {res.violated} ({cfg})", replay=res.trace_text[:3000])
+            etext = text if family31 else text.replace("MaxRows = 3", f"MaxRows = {2 if (q or layout == 'joint') else 3}")
+            etext = "\n".join(l for l in etext.splitlines() if not l.startswith("INVARIANT")) + "\n"
+            ecfg = os.path.join(tmp, "enum_" + cfg)
+            with open(ecfg, "w") as f:
+                f.write(etext)
+            res2, cs = cases.enumerate_cases("IngestLayouts", ecfg, tmp, "il_" + cfg[:-4])
+            tables = [[{"id": str(r["id"]), "age": int(r["age"]), "et": str(r["et"]), "eb": int(r["eb"]), "cov": str(r["cov"])} for r in c["table"]] for c in cs]
+            n_all = len(tables)
+            expect = n_all
+            if family31 and layout == "joint" and q:
+                rnd.shuffle(tables)
+                tables, expect = tables[:700], 0
+            if not family31 and not q and layout == "joint":
+                # three-row joint tables: a seeded sample (the full space has 46 656 tables; the design side is exhaustive)
+                pool = ["0", "2", "nan"]
+                extra = [[{"id": rnd.choice("ab"), "age": rnd.choice([1, 2, 3]), "et": rnd.choice(pool), "eb": rnd.choice([0, 1]), "cov": "none"}
+                          for _ in range(3)] for _ in range(6000)]
+                tables, expect = tables + extra, 0
+            recs = [ingest_layouts.run_case(layout, t) for t in tables]
+            send = [{k: v for k, v in r.items() if k not in ("roundtrip_note", "roundtrip_order_kept")} for r in recs]
+            ttext = etext.replace("SPECIFICATION Spec", "SPECIFICATION TSpec").replace("MaxRows = 2", "MaxRows = 4") + \
+                "INVARIANT Conforms\n" + ("INVARIANT Covered\n" if expect else "")
+            ok, idx, r2 = cases.validate_records("IngestLayoutsTrace", ttext, send, tmp, "ilc_" + cfg[:-4], env={"EXPECT_COUNT": str(expect)})
+            ctx.traces += len(recs)
+            ctx.states += r2.distinct
+            ctx.transitions += r2.generated
+            for r in recs:
+                ctx.case(key=(layout, repr(r["table"])))
+            n_ok = sum(r["status"] == "ok" for r in recs)
+            ctx.log(f"{layout}/{cfg[16:-4]}: design {res.distinct} tables; {len(recs)} of {n_all} enumerated tables ingested ({n_ok} accepted, "
+                    f"{len(recs) - n_ok} refused) -> {'all conform' if ok else 'MISMATCH'} ({r2.wall:.1f}s)")
+            if n_ok == 0 or n_ok == len(recs):
+                raise tlc.MachineryError(f"vacuity: {layout}/{cfg} has {n_ok} accepted tables of {len(recs)}")
+            if not ok:
+                bad = recs[idx] if idx is not None else None
+                ctx.violation({"check": "layout_conformance", "layout": layout, "status": bad and bad["status"]},
+                              f"{layout} ingestion differs from IngestLayouts.tla Canon(table) on {bad}", replay=bad)
+            if not family31:
+                ctx.sample(next(r for r in recs if r["status"] == "ok" and len(r["table"]) >= 2))
 
 
 def replay(ctx, path):
